@@ -85,7 +85,7 @@ def decide(cond, summ, qs, timeout_ms, seed, label):
             qs.violated += 1
             qs.by_candidate += 1
             return "sat", list(vals)
-    if summ.op == "mul" and ":must-fail" in label or ":C17" in label and summ.op == "mul":
+    if summ.op == "mul" and (":must-fail" in label or ":C17" in label or "=>" in label):
         # wide multiplications: witness search by evaluation on the boundary grid is much cheaper than bit-blasting
         for vals in candidates(summ):
             subs = [(summ.inputs[i].e, K.const_of(summ.kinds[i], vals[i])) for i in range(len(vals))]
